@@ -255,3 +255,75 @@ def _rejections(which):
     if which == 8:
         return _raises(lambda: m.add(h.Signal())) and _raises(lambda: m.add(h.Signal(name="x"), name="y"))
     return _raises(lambda: delattr(b, "x")) if hasattr(type(b), "__delattr__") and type(b).__delattr__ is not object.__delattr__ else True
+
+
+def _class_vs_proc(binds, named):
+    """the same attribute bindings written in a class body and procedurally: same names, same objects' kinds, same export"""
+    env.reset_all()
+    B = h.Bundle(name="B")
+    B.add(h.Signal(name="x"))
+
+    def values():
+        created = []
+        for k, (ni, kind) in enumerate(binds):
+            v = _mkval(kind, created, B)
+            if named and kind != 6 and not isinstance(v, h.Pair):
+                v.name = "pre%d" % k  # the value already carries a name of its own when it is bound
+            created.append(v)
+        return created
+
+    ns = {}
+    for (ni, kind), v in zip(binds, values()):
+        ns[NAMES[ni]] = v
+    try:
+        Cls = h.module(type("Cls", (), ns))
+        cerr = None
+    except Exception as e:
+        Cls, cerr = None, type(e).__name__
+    P = h.Module(name="Cls")
+    perr = None
+    nsp = {}
+    for (ni, kind), v in zip(binds, values()):
+        nsp[NAMES[ni]] = v
+    try:
+        # (what a class body hands over is its final name -> value table, in order of first binding)
+        for name, v in nsp.items():
+            setattr(P, name, v)
+    except Exception as e:
+        perr = type(e).__name__
+    env.reached()
+    if cerr or perr:
+        return (cerr is None) == (perr is None)  # both styles reject, or neither
+    if not _coherent(Cls) or not _coherent(P):
+        return False
+    view = lambda m: {n: type(o).__name__ for n, o in m.namespace.items()}
+    if view(Cls) != view(P):
+        WHY["why"] = f"class style holds {view(Cls)}, procedural {view(P)}"
+        return False
+    sigs, insts = _expected_export(P)
+    if len(sigs) != len(P.ports) + len(P.signals) + len(P.bundles) or len(insts) != len(P.instances) + 2 * len(P.instarrays) + 2 * len(P.instbundles):
+        return True
+    a, c = h.to_proto(Cls), h.to_proto(P)
+    with env.notrace():
+        # (declaration ORDER may differ: re-binding a name keeps its place in a class body and moves it last procedurally)
+        def canon(pkg):
+            pm = pkg.modules[-1]
+            return (sorted(str(x) for x in pm.signals), sorted(str(x) for x in pm.ports), sorted(str(x) for x in pm.instances),
+                    sorted(str(x) for x in pkg.ext_modules), len(pkg.modules))
+        return canon(a) == canon(c)
+
+
+WHY = {}
+
+
+@harness("C18", args="n0: int, k0: int, n1: int, k1: int, n2: int, k2: int, named: bool",
+         pre=["0 <= n0 <= 2", "0 <= n1 <= 2", "0 <= n2 <= 2", "0 <= k0 <= 5", "0 <= k1 <= 6", "0 <= k2 <= 6"],
+         tiers={"quick": {"timeout": 150, "parts": parts_over("k0", range(6))}}, sample=(0, 0, 1, 6, 0, 2, True),
+         bounds="three attribute bindings (3 names x 7 value kinds incl. re-binding the first object under another name; values anonymous or already carrying a name of their own) written in a class body and as procedural assignments: same namespace, both coherent, identical export",
+         generalises="selectors (solver-enumerated)", outside="")
+def class_equals_procedural(n0, k0, n1, k1, n2, k2, named):
+    P = env.pick
+    binds = [(P(n0, 0, 2), P(k0, 0, 5)), (P(n1, 0, 2), P(k1, 0, 6)), (P(n2, 0, 2), P(k2, 0, 6))]
+    named = bool(named)
+    with env.notrace():
+        return _class_vs_proc(binds, named)
